@@ -18,7 +18,7 @@ RULE = ("Data-first LPs as in C05 (feasible-bounded / infeasible / open cost dir
         "passed (captured at the linprog seam): the verdict must match under {0:OPTIMAL, 1:MAX_ITERATIONS, "
         "2:INFEASIBLE, 3:UNBOUNDED, other:FAILED} and, when optimal, |obj_optyx - (sign*fun_ref + c0)| <= "
         "1e-7(1+|obj_ref|).  Non-trivial = >= 2 variables, >= 1 general row and a vector/matrix form or a "
-        "non-zero constant in the rendering."
+        "non-zero constant in the rendering.  A third of the solves pass the keywords Problem.solve documents for every problem (maxiter, tol, x0, use_hessian); the verdict and objective must not change."
         '  Also: a third round after the two solves: orientation flipped with the same objective object, or a redundant row added (forces re-extraction from the same expression objects).')
 BUDGET = {"quick": {"workers": 16, "examples": 350}, "thorough": {"workers": 16, "examples": 6000}}
 ASSUMPTIONS = ["HiGHS is deterministic: identical arrays give identical verdicts, so a differing verdict means different data was passed"]
@@ -35,7 +35,10 @@ def cases(draw):
     model = draw(models.lp_models())
     return {"model": model, "method": draw(st.sampled_from(METHODS)), "deep_algorithms": draw(st.integers(0, 4)) == 0,
             "edit": draw(st.sampled_from([None, None, "ub", "lb"])),
-            "third": draw(st.sampled_from([None, "flip-same-object", "add-redundant-row"]))}
+            "third": draw(st.sampled_from([None, "flip-same-object", "add-redundant-row"])),
+            # keywords that Problem.solve documents for every problem
+            "kw": draw(st.sampled_from([None, None, None, {"maxiter": 1000}, {"tol": 1e-9}, {"x0": None, "use_hessian": True},
+                                        {"maxiter": 500, "tol": 1e-8}]))}
 
 
 def strategy(tier):
@@ -67,7 +70,7 @@ def reference(model, method):
 def check(case):
     model, method = case["model"], case["method"]
     selfcheck(model)
-    classes = ["method:" + method, "flavour:" + model["flavour"]]
+    classes = ["method:" + method, "flavour:" + model["flavour"]] + (["kw:" + "+".join(sorted(case["kw"]))] if case.get("kw") else [])
     desc = f"{models.describe(model)} method={method}"
     with quiet():
         try:
@@ -106,7 +109,7 @@ def check(case):
                 classes.append("edit:" + case["edit"])
             try:
                 with seams.linprog_capture() as cap:
-                    sol = P.solve(method=method)
+                    sol = P.solve(method=method, **(case.get("kw") or {}))
             except Exception as ex:
                 return Result.violation(f"solve-raises:{exc_label(ex)}", f"{desc} ({rnd}): {ex!r}", classes)
             if not cap.calls:
